@@ -435,6 +435,8 @@ def coq_text(uses, nfun, nsrc):
     for m in getattr(translate, "methods", []):
         guard = min([u[3] for u in m["uses"] if u[1] == "UGuard"] or [0])
         wr = [(u[2] if u[1] != "UUnknown" else "?" + u[2], u[3]) for u in m["uses"] if u[1] in ("UWrite", "UOther", "UUnknown")]
+        wr += [("@pass:" + u[2], u[3]) for u in m["uses"] if u[1] == "UPass"]   # *this handed on as a non-const reference
+        wr.sort(key=lambda w: (w[1], w[0]))
         calls = sorted(set(u[2] for u in m["uses"] if u[1] == "UCallNC"))
         mb.append("  mkM %s %s %s %d [%s] [%s]" % (s(m["name"]), "true" if m["public"] else "false", "true" if m["const"] else "false", guard,
                                                    "; ".join("(%s, %d)" % (s(f), l) for f, l in wr), "; ".join(s(c) for c in calls)))
@@ -457,6 +459,14 @@ def offending_methods(methods):
             continue
         guard = min([u[3] for u in m["uses"] if u[1] == "UGuard"] or [0])
         wr = [(u[2], u[3]) for u in m["uses"] if u[1] in ("UWrite", "UOther", "UUnknown")]
+        passes = [(u[2], u[3]) for u in m["uses"] if u[1] == "UPass"]
+        inuse = [l for f, l in wr if f == "isInUse_"]
+        for callee, l in passes:
+            if m["name"] in ("placeGlobal", "legalize", "placeDetailed", "place"):
+                if not any(g < l for g in inuse):
+                    bad.append("Circuit::%s hands the circuit to %s (line %d) before taking the in-use flag" % (m["name"], callee, l))
+            else:
+                bad.append("Circuit::%s (not a placement entry point) hands the mutable circuit to %s" % (m["name"], callee))
         first = guard != 0 and all(guard < l for _, l in wr)
         if any(f in STRUCTURAL for f, _ in wr) and not first:
             bad.append("Circuit::%s changes %s %s" % (m["name"], sorted(set(f for f, _ in wr if f in STRUCTURAL)),
